@@ -4,4 +4,4 @@ CONSTANTS
   MaxSeg = 3
   MaxDepth = 3
   Mut = "none"
-INVARIANTS FirstMatch NoPrefix MatcherAgrees MapThenRoute PoolWhole
+INVARIANTS FirstMatch NoPrefix MatcherAgrees MapThenRoute PoolWhole PoolFirst
